@@ -213,6 +213,139 @@ WITNESSES = [
 ]
 
 
+# ---------------------------------------------------------------------------------------------------------------------------
+# Idiom family: the rule shapes people write by hand -- zero/one-or-more lists (left and right recursive), optionals, separated
+# lists, plain wrappers -- composed in sequence.  S: E1 E2 [E3]; every Ei is a terminal or an instance of an idiom with its own
+# nonterminal.  (Round-2 seeded change C04-c lived exactly here: FIRST of a nullable left-recursive list used as a lookahead.)
+IDIOMS = {
+    "l0L": lambda X, t: [(X, (X, t)), (X, ())],
+    "l0R": lambda X, t: [(X, (t, X)), (X, ())],
+    "l1L": lambda X, t: [(X, (X, t)), (X, (t,))],
+    "l1R": lambda X, t: [(X, (t, X)), (X, (t,))],
+    "opt": lambda X, t: [(X, (t,)), (X, ())],
+    "one": lambda X, t: [(X, (t,))],
+    "sep": lambda X, t: [(X, (X, "s", t)), (X, (t,))],
+}
+IDIOM_NAMES = sorted(IDIOMS)
+
+
+def idiom_grammar(seq, shared=False, ntelem=False):
+    """seq: tuple of idiom names or 'tok'.  shared: every element uses terminal 'a' (ambiguity, conflicts); ntelem: the repeated
+    element is a nonterminal (E_i: t) instead of the terminal itself."""
+    prods, rest, tnames = [], [], []
+    rhs = []
+    for i, e in enumerate(seq):
+        t = "a" if shared else "abc"[i]
+        if t not in tnames:
+            tnames.append(t)
+        if e == "tok":
+            rhs.append(t)
+            continue
+        X = "ABC"[i]
+        rhs.append(X)
+        el = t
+        if ntelem:
+            el = "EFG"[i]
+            rest.append((el, (t,)))
+        rest += IDIOMS[e](X, el)
+        if e == "sep" and "s" not in tnames:
+            tnames.append("s")
+    prods = [("S", tuple(rhs))] + rest
+    return {"prods": prods, "terms": [(t, "str", "," if t == "s" else t) for t in tnames]}
+
+
+def idiom_family(limit=None, rng_seed=4711):
+    out = []
+    elems = IDIOM_NAMES + ["tok"]
+    for n in (2, 3):
+        for seq in itertools.product(elems, repeat=n):
+            if all(e == "tok" for e in seq):
+                continue
+            for shared in (False, True):
+                for ntelem in (False, True):
+                    out.append(idiom_grammar(seq, shared, ntelem))
+    if limit is not None and len(out) > limit:
+        out = random.Random(rng_seed).sample(out, limit)
+    return out
+
+
+def rr_family(limit, rng_seed=4750):
+    """Reduce/reduce families: A and B have the same body, S's alternatives start with A, B or a token and continue with tokens or
+    E (E: x).  GLR keeps several heads in DIFFERENT states alive over the same input (round-2 seeded change C10-c: the heads'
+    expected terminals were not united)."""
+    rng = random.Random(rng_seed)
+    tails = [t for n in (1, 2) for t in itertools.product(("x", "E", "p", "q"), repeat=n)]
+    alts = [(f,) + t for f in ("A", "B", "z") for t in tails]
+    out, seen = [], set()
+    tries = 0
+    while len(out) < limit and tries < limit * 50:
+        tries += 1
+        pick = tuple(sorted(rng.sample(alts, rng.choice((2, 3, 3)))))
+        if pick in seen:
+            continue
+        seen.add(pick)
+        used = {s for a in pick for s in a}
+        if not {"A", "B"} <= used:
+            continue
+        prods = [("S", a) for a in pick] + [("A", ("a",)), ("B", ("a",))] + ([("E", ("x",))] if "E" in used else [])
+        tn = sorted({s for _, rhs in prods for s in rhs if s.islower()})
+        out.append({"prods": prods, "terms": [(t, "str", t) for t in tn]})
+    return out
+
+
+# Witnesses with lexical ambiguity between tokens of different length (finding D23).
+LEXAMB_WITNESSES = [
+    {"prods": [("S", ("A", "A")), ("A", ("t1",)), ("A", ("t2",))], "terms": OVERLAP_TERMS[:2]},
+    {"prods": [("S", ("t1",)), ("S", ("S", "S")), ("S", ("t2", "t1"))], "terms": OVERLAP_TERMS[:2]},
+]
+
+
+def epschain_family(limit=None, rng_seed=4770):
+    """Lookahead propagation through chains of nullable nonterminals: C (maybe empty) <- A (units / pairs of C) <- B (pairs of A) used by
+    S with different followers in one state (round-2 seeded change C02-c: a widened follow set was not re-propagated in the closure)."""
+    Cs = [[()], [(), ("c",)], [("c",)]]
+    As = [[("C",)], [("C",), ("a",)], [("C", "C")], [(), ("C",)]]
+    Bs = [[("A", "A")], [("A",)], [("A", "a")], [("A", "A"), ("b",)], [("a", "A")]]
+    Ss = [("B", "a"), ("B",), ("B", "b"), ("a", "B"), ("B", "B"), ("A", "B"), ("B", "A", "a")]
+    out = []
+    for c, a, b in itertools.product(Cs, As, Bs):
+        for s1, s2 in itertools.combinations(Ss, 2):
+            prods = [("S", s1), ("S", s2)] + [("B", x) for x in b] + [("A", x) for x in a] + [("C", x) for x in c]
+            used = {y for _, rhs in prods for y in rhs}
+            tn = [t for t in ("a", "b", "c") if t in used]
+            if well_formed(prods, tn):
+                out.append({"prods": prods, "terms": [(t, "str", t) for t in tn]})
+    if limit is not None and len(out) > limit:
+        out = random.Random(rng_seed).sample(out, limit)
+    return out
+
+
+LEXSEQ_POOL = [("a", "str", "a"), ("aa", "str", "aa"), ("aaa", "str", "aaa"), ("ap", "re", "a+"), ("b", "str", "b"), ("ab", "str", "ab"), ("abq", "re", "ab?")]
+
+
+def lexseq_family(limit=None, rng_seed=4760):
+    """S: X | X Y Z | W over lexically overlapping terminals: a short token whose continuation can die while a longer token found at the
+    same position is still waiting to be shifted (round-2 seeded change C17-c)."""
+    names = [t[0] for t in LEXSEQ_POOL]
+    out = []
+    for x, y, z, w in itertools.product(names, repeat=4):
+        if w == x:
+            continue
+        prods = [("S", (x,)), ("S", (x, y, z)), ("S", (w,))]
+        used = {x, y, z, w}
+        out.append({"prods": prods, "terms": [t for t in LEXSEQ_POOL if t[0] in used]})
+    if limit is not None and len(out) > limit:
+        out = random.Random(rng_seed).sample(out, limit)
+    return out
+
+
+# D1 at its worst (known finding C01-KF1): the sentence is REJECTED, every derivation needs a path through a GSS node visited twice
+REJECT_WITNESSES = [
+    {"prods": [("S", ("t", "A", "S")), ("S", ("A", "A")), ("A", ("S",)), ("A", ())], "terms": [("t", "str", "t")]},
+    {"prods": [("S", ()), ("S", ("A", "a", "a")), ("A", ("S", "S", "S")), ("A", ("S", "A", "a"))], "terms": [("a", "str", "a")]},
+]
+
+
 def sentences(g, maxlen=6, limit=400, max_forms=20000):
     """Terminal-text sentences of g up to maxlen tokens, shortest first (breadth-first leftmost derivation)."""
     prods = g["prods"]
